@@ -10,7 +10,7 @@ BIN = ['+', '-', '*', '&', '|', '^', '<<', '>>', '==', '!=', '<', '>', '<=', '>=
 
 
 class Line:
-    __slots__ = ('depth', 'text', 'role', 'opener', 'in_switch', 'case_body', 'vdepth', 'fn', 'ns', 'cls')
+    __slots__ = ('depth', 'text', 'role', 'opener', 'in_switch', 'case_body', 'vdepth', 'fn', 'ns', 'cls', 'grp')
 
     def __init__(self, depth, text, role, opener=None, in_switch=0, case_body=0, vdepth=0):
         self.depth = depth          # number of enclosing real braces that indent (function body = 1)
@@ -23,6 +23,7 @@ class Line:
         self.fn = None
         self.ns = 0
         self.cls = 0
+        self.grp = None
 
 
 class G:
@@ -30,6 +31,7 @@ class G:
         self.lang, self.r, self.depth_max, self.stmts, self.shapes = lang, r, depth_max, stmts, shapes
         self.cpp_extras = cpp_extras
         self.nfun = 0
+        self.ngrp = 0
         self.comments = False
         self.ncmt = 0
         self.budget = 60
@@ -141,12 +143,21 @@ class G:
             return r.choice(['arr[%s & 7] = %s;' % (lv, self.expr(1)), 's0.a = %s;' % self.expr(1)])
         return '%s = %s;' % (lv, self.expr())
 
-    def block(self, out, depth, n=None, sw=0, cb=0, vd=0, nest=0, case_first=False):
+    def block(self, out, depth, n=None, sw=0, cb=0, vd=0, nest=0, case_first=False, grp=None):
         r = self.r
         n = n if n is not None else r.randint(*self.stmts)
+        if grp is None:
+            self.ngrp += 1
+            grp = self.ngrp
         for k in range(n):
             # a block directly after 'case X:' is uncrustify's "case brace" (own style options): not generated
+            before = len(out)
             self.stmt(out, depth, sw, cb, vd, nest, no_block=(case_first and k == 0))
+            # the first line a statement emits (and a comment in front of it) sits directly in this block
+            for ln in out[before:]:
+                if ln.grp is None and ln.depth == depth and ln.vdepth == vd and ln.case_body == cb and \
+                        ln.role in ('stmt', 'head', 'comment', 'bare-open', 'head-else', 'do-while'):
+                    ln.grp = grp
 
     def body(self, out, depth, sw, cb, vd, nest, head_idx, allow_vbrace=True):
         """Body of a control statement whose header is out[head_idx]."""
@@ -174,7 +185,7 @@ class G:
         if (deep and only_control) or ((deep or k < 0.45) and not only_control):
             out.append(Line(depth, self.simple(), 'stmt', None, sw, cb, vd))
             return
-        kind = r.choice(['if', 'if', 'ifelse', 'ifelse', 'chain', 'for', 'while', 'do', 'switch', 'block'] if not only_control else
+        kind = r.choice(['if', 'if', 'ifelse', 'ifelse', 'chain', 'for', 'while', 'do', 'switch', 'block', 'if1', 'if1', 'if1'] if not only_control else
                         ['if', 'for', 'ifelse'])
         if kind == 'block' and no_block:
             kind = 'if'
@@ -183,6 +194,18 @@ class G:
             out.append(Line(depth, '{', 'open', hi, sw, cb, vd))
             out[-1].role = 'bare-open'
             self.block(out, depth + 1, None, sw, cb, vd, nest + 1)
+            out.append(Line(depth, '}', 'close', hi, sw, cb, vd))
+            return
+        if kind == 'if1':
+            # braces around a single nested control statement (what the brace-removal options look for)
+            hi = len(out)
+            out.append(Line(depth, 'if (%s)' % self.cond(), 'head', None, sw, cb, vd))
+            out.append(Line(depth, '{', 'open', hi, sw, cb, vd))
+            self.ngrp += 1
+            g1 = self.ngrp
+            before = len(out)
+            self.stmt(out, depth + 1, sw, cb, vd, nest + 1, only_control=True)
+            out[before].grp = g1
             out.append(Line(depth, '}', 'close', hi, sw, cb, vd))
             return
         if kind in ('if', 'ifelse', 'chain'):
@@ -228,17 +251,21 @@ class G:
             out.append(Line(depth, 'switch (%s & 3)' % r.choice(self.lvals()), 'head', None, sw, cb, vd))
             out.append(Line(depth, '{', 'open', hi, sw, cb, vd))
             labels = r.sample([0, 1, 2, 3], r.randint(1, 3))
+            self.ngrp += 1
+            sgrp = self.ngrp
             for li, lab in enumerate(labels):
                 out.append(Line(depth, 'case %d:' % lab, 'case', hi, sw + 1, cb, vd))
                 if r.random() < 0.2 and li + 1 < len(labels):
                     continue            # fall-through label pair
-                self.block(out, depth, r.randint(1, 3), sw + 1, cb + 1, vd, nest + 1, case_first=True)
+                self.block(out, depth, r.randint(1, 3), sw + 1, cb + 1, vd, nest + 1, case_first=True, grp=sgrp)
                 if r.random() < 0.85:
                     out.append(Line(depth, 'break;', 'stmt', None, sw + 1, cb + 1, vd))
+                    out[-1].grp = sgrp
             if r.random() < 0.7:
                 out.append(Line(depth, 'default:', 'case', hi, sw + 1, cb, vd))
-                self.block(out, depth, r.randint(1, 2), sw + 1, cb + 1, vd, nest + 1, case_first=True)
+                self.block(out, depth, r.randint(1, 2), sw + 1, cb + 1, vd, nest + 1, case_first=True, grp=sgrp)
                 out.append(Line(depth, 'break;', 'stmt', None, sw + 1, cb + 1, vd))
+                out[-1].grp = sgrp
             out.append(Line(depth, '}', 'close', hi, sw, cb, vd))
             return
 
